@@ -33,16 +33,18 @@ CLAIMED.update({
               "exhaustive small-grid correspondence (every line <=3 vertices, all grid triangles, shells with holes, multi-part shapes x every "
               "integer box, all forms: array / inds / scalar / GeoSeries / sliced, five subtypes) plus seeded random shapes, and an independent "
               "exact-rational oracle compared with the model on a share of the cases.",
-              STD_NOTE + "Proved exact (iff, over rational points) for point, multipoint, line, ring, multiline and for segments_intersect; the polygon / "
-              "multipolygon clause is partial: the boundary part is proved, the step 'no boundary point in the box => the corner winding test decides' "
-              "needs winding constancy (DESIGN Appendix B), which is a paper proof - there the tie is the exhaustive correspondence and the exact oracle.",
+              STD_NOTE + "Proved exact (iff, over rational points) for every kind incl. polygon and multipolygon (closed rings, holes within the shell's "
+              "bounding box; polygon point set = ring points and points of non-zero winding number; the corner winding test is justified by the "
+              "formalised constancy of the winding number on boxes that miss the ring). Reading 'non-zero winding number' as 'inside' is C02.",
               "Lean 4 proof about the kernel model + model/implementation/oracle correspondence", "I.2 C01, II §3 C01"),
     "C02": _c("Lean model of point-vs-shape intersects (Geom.point*, the winding loop as coded) with the theorems of Props/C02.lean; "
               "correspondence over every shape of the grid families x every grid point (rays through vertices, points on edges), a missing and an "
               "all-NaN point, array / inds / scalar / GeoSeries forms, plus seeded random shapes; on-ring points compared for form agreement only.",
-              STD_NOTE + "Proved exact (iff) for point, multipoint, line, multiline; for polygons the edge rule (closed form and geometric reading), "
-              "antisymmetry under reversal, zero outside the bounding box and the shell-minus-holes decision logic are proved; that a simple ring winds "
-              "+-1 exactly around its interior (Jordan) is a paper argument, so the polygon clause is partial (DESIGN I.2, I.7).",
+              STD_NOTE + "Proved exact (iff) for point, multipoint, line, multiline; for polygons: the edge rule (closed form and geometric reading), "
+              "antisymmetry under reversal, zero outside the bounding box, constancy along segments and on boxes that miss the ring, jump by the "
+              "edge's direction across one edge, +-1 strictly inside a triangle, and the shell-minus-holes decision logic. That these local facts "
+              "determine the winding number of a simple ring (every point can be joined to infinity crossing edges transversally: Jordan) is a "
+              "paper argument, so the polygon clause is partial (DESIGN I.2, I.7).",
               "Lean 4 proof about the winding-number model + correspondence with exact oracle", "I.2 C02, II §3 C02"),
     "C03": _c("Lean page-tree model of the Hilbert R-tree (Model/RTree.lean) proved for every permutation of the rows (so for every p) and every "
               "page size; correspondence: exhaustive d=1 (n<=3, endpoints 0..3 or NaN, every page size and query), small exhaustive d=2, seeded "
